@@ -147,7 +147,7 @@ def rand_len(rng, positive=False, pct=True, units=True):
 
 
 COLORS = ["red", "blue", "#0f0", "#123456", "rgb(10,20,30)", "none", "black", "#ff000080", "orange", "currentColor",
-          "rgb(50%,0%,100%)", "hsl(120,100%,50%)", "White"]
+          "rgb(50%,0%,100%)", "hsl(120,100%,50%)", "White", "#33445500", "rgba(9,8,7,0)", "#abc0"]
 
 
 def node(tag, sem=None, kids=None, text=""):
